@@ -10,8 +10,11 @@
 //!
 //! Scopes: parameters and the outermost block of the body share one scope (C++ [basic.scope.block]/2); every `{ }`, every
 //! sub-statement of if / else / while / do / switch and every `for` (its init-declaration, condition, increment and the
-//! outermost block of its body) is a scope; a `case` / `default` label does not open one.  A declarator's initialiser is resolved *before* the name is
-//! declared (rssl's reading; the generated programs never mention a name in its own initialiser).
+//! outermost block of its body) is a scope; a `case` / `default` label does not open one.  A declarator's name is in scope
+//! from the end of the declarator, i.e. **inside its own initialiser** (C / C++ [basic.scope.pdecl] / HLSL; rssl's front end
+//! resolves the initialiser *before* the name exists, so an IR initialiser never reads its own variable): an emitted
+//! initialiser that mentions the name being declared reads the uninitialised new variable instead of what the IR reads —
+//! reported as a failure (seeded mutant C01-5: `int slot = v[slot];`).
 use super::sx::*;
 use std::collections::{HashMap, HashSet};
 
@@ -75,11 +78,15 @@ impl<'a> Res<'a> {
     fn decls(&mut self, items: &[Sx]) -> Result<Vec<Sx>, String> {
         let mut v = vec![items[0].clone()];
         for d in &items[1..] {
+            let n = d.args()[0].atom();
+            let u = self.declare(n)?;
             let init = match d.args().get(1) {
                 Some(x) => Some(self.expr(x)?),
                 None => None,
             };
-            let u = self.declare(d.args()[0].atom())?;
+            if init.as_ref().map(|i| mentions(i, &u)).unwrap_or(false) {
+                return Err(format!("the initialiser of `{}` in {} mentions `{}`: in C / HLSL that is the variable being declared (uninitialised)", n, self.func, n));
+            }
             let mut it = vec![a(&u)];
             it.extend(init);
             v.push(node("d", it));
@@ -137,6 +144,14 @@ impl<'a> Res<'a> {
             "default" => node("default", vec![self.stmt(&x[0])?]),
             _ => s.clone(),
         })
+    }
+}
+
+/// does the (resolved) expression read or write the variable `u`?
+fn mentions(e: &Sx, u: &str) -> bool {
+    match e {
+        Sx::A(_) => false,
+        Sx::L(items) => (e.head() == "id" && e.args().first().map(|x| x.atom() == u).unwrap_or(false)) || items.iter().any(|x| mentions(x, u)),
     }
 }
 
